@@ -16,14 +16,26 @@ RULE = ("random indexed collections built by the real IndexedInstrumentsBuilder:
         "receiving client (exchange id, instrument name_exchange, cid, payload), which manager task panicked, the engine key of the echoed answer on the merged account channel; 8% of cases then overwrite 1-3 keys of the built collection through its derived Deserialize (duplicate / shifted / out-of-range keys, outside Indexed: model vs code only) and sweep again. Thorough additionally enumerates all 9 261 collections over 3 exchanges x (0,1,2 instruments named 1|2 over assets {1,2} in either "
         "base/quote order), full find_* sweep on 4 links and every (exchange index, instrument index) order_request on 3 links, plus route ops with the first exchange link-less and the later ones added "
         "in reverse order (every exchange index x every instrument index), all linked in reverse order and the middle one link-less (every exchange index x {own instrument, out of range}). Distinct by SHA-1 of the op lines; "
-        "non-trivial when the implementation's observation blocks differ at least once")
+        "non-trivial when the implementation's observation blocks differ at least once. "
+        "PAYLOADS (input-domain audit): every request / order / trade / balance op names ONE payload number p and the harness derives from it every field the indexer has to carry over, so that "
+        "the whole domain of the Rust types occurs: side Buy / Sell, kind Limit / Market, all five TimeInForce values, quantity in {1, 0, 0.5, -1, 1e-8, 1e12, -2.5}, trade fees in {0, 0.1, -0.2, 2.5, -1} "
+        "(rebates), time stamps from 3 s before to 3 s after t0, free balance = total for every fourth p and below it (negative for small p) otherwise, trade id != order id, `act 6 / 7 / 8` = "
+        "CancelInFlight(Some) / OpenInFlight / CancelInFlight(None) instead of Open, `conn` = Timeout / ExchangeOffline(id) / Socket(text) by payload (cancel responses: cid) mod 3, the message string of an API "
+        "error, and p = 0 on a cancel request = RequestCancel WITHOUT order id; every printer recomputes the fields from the p that comes back and prints `!payload` when one differs. "
+        "INPUT-DOMAIN FAMILY (`d` cases, max(6, N/6) of them, own seed, names unique per exchange so that the spec speaks): in turn all FIVE exchanges; exchanges that own assets which are no instrument's base or quote "
+        "(optional `E` section of the build op: settlement asset of a perpetual / future / option, quantity-unit asset of an InstrumentSpec); instruments whose base IS their quote and single-asset exchanges; one exchange "
+        "with 30-60 instruments over 12 assets with multi-digit names of which one is a prefix of another (1, 10, 100, 11 ...); ordinary collections; all of it together - each with the full sweep, 20/30 random ops, "
+        "2 link selections of route ops, and per link: cancel / open with payload 0 through oreq, mgr and route, order events and snapshots in the three non-Open active states, the three connectivity errors, "
+        "boundary payloads for trade / bal, and indices at the top of usize on fexid / fan / fin / oreq / route. 3 committed corpus cases (corpus/C04: D1 payload classes, D2 assets outside every underlying, "
+        "D3 five exchanges + base = quote + prefix names + usize::MAX indices)")
 ASSUMPTIONS = [
     "the indexed collection has key = position for exchanges, assets and instruments (what IndexedInstrumentsBuilder::build produces; property C11) - hypothesis Indexed",
     "exchange ids of the collection are pairwise distinct, and on the exchange of the link no two assets and no two instruments share a name_exchange - rest of hypothesis WF; "
     "at the excluded point the code's FnvHashMap<Name, Index> keeps the later index (modelled and compared with the code, not constrained by the spec)",
     "FnvIndexMap / FnvHashMap built by collect() behave as association lists with in-place upsert; hash-map iteration order is never observed",
-    "ExchangeId, names and indices are natural numbers; StrategyId+ClientOrderId are one number; all other fields of orders, trades, balances and request states are one opaque payload "
-    "(the harness checks on every observation that the real code carried them over unchanged)",
+    "ExchangeId, names and indices are natural numbers (names: decimal strings without leading zeros, so that string equality = numeric equality; case, empty and non-ASCII names are not driven); "
+    "StrategyId+ClientOrderId are one number; all other fields of orders, trades, balances and request states are one opaque payload number p: the harness derives the real field values from p over the whole "
+    "domain of their types (see RULE, PAYLOADS) and checks on every observation that the real code carried every one of them over unchanged; AccountEventIndexer::client_error (ClientError is not an account event) is not driven",
     "ExecutionManager::run is modelled only at its two translation sites (order_request before the client call, order_key on the response); scheduling, timeouts and the "
     "response channel are C03/C07",
     "routing: a transmitter is identified with the ExecutionManager owning its receiver (the exchange its client was constructed for + its ExecutionInstrumentMap); channel delivery "
